@@ -2,6 +2,7 @@
 //! See /verif/DESIGN.md. Everything deciding a property is `#[cfg(kani)]`.
 #![allow(dead_code, unused_imports, clippy::all)]
 #![cfg_attr(kani, feature(allocator_api))]
+#![recursion_limit = "512"]
 
 pub mod sink;
 #[cfg(kani)]
@@ -11,8 +12,8 @@ pub mod hcons;
 #[cfg(kani)]
 pub mod vals;
 #[cfg(kani)]
-mod c10;
+mod c10k;
 #[cfg(kani)]
-mod c14;
+mod c01;
 #[cfg(kani)]
-mod micro;
+mod c18;
